@@ -64,8 +64,15 @@ psf_bump_header_allocation (SF_PRIVATE * psf, sf_count_t needed)
 	newlen = (needed > psf->header.len) ? 2 * SF_MAX (needed, smallest) : 2 * psf->header.len ;
 
 	if (newlen > 100 * 1024)
-	{	psf_log_printf (psf, "Request for header allocation of %D denied.\n", newlen) ;
-		return 1 ;
+	{	/*
+		**	Doubling would pass the limit. The request itself may still fit : every
+		**	caller is about to use the `needed` bytes that follow header.indx.
+		*/
+		if (psf->header.indx + needed > 100 * 1024)
+		{	psf_log_printf (psf, "Request for header allocation of %D denied.\n", newlen) ;
+			return 1 ;
+			} ;
+		newlen = 100 * 1024 ;
 		}
 
 	if ((ptr = realloc (psf->header.ptr, newlen)) == NULL)
